@@ -8,6 +8,7 @@
 -/
 import Stef.Proofs.Alloc
 import Stef.Proofs.ReaderProgress
+import Stef.Proofs.Sizes
 import Stef.Spec
 
 namespace Stef.Props.C03
@@ -38,6 +39,20 @@ theorem alloc_bound (reqs : List Alloc.Req) (hwf : ∀ r ∈ reqs, r.wf)
   simp only [Nat.zero_add] at h1
   omega
 
+/-- **column buffers of a frame**: `ReadBufs.ReadFrom` allocates every column's buffer while it
+    parses the size table, before any column data is read. For every column tree, every input
+    and every `readLimit` (the frame's remaining size), the size-table buffer plus all column
+    buffers it allocates - on the error paths too - is at most `readLimit`: sibling columns share
+    one budget, so N columns cannot each claim the whole frame. -/
+theorem frame_columns_alloc_bounded (t : Sizes.ColTree) (input : Bytes) (readLimit : Nat) :
+    (Sizes.readFrom t input readLimit).temp + (Sizes.readFrom t input readLimit).alloc.sum ≤ readLimit :=
+  Sizes.readFrom_alloc_bounded t input readLimit
+
+/-- what is granted to the columns is exactly what leaves the shared budget. -/
+theorem column_budget_conserved (t : Sizes.ColTree) (s : Sizes.St) :
+    (Sizes.readSizes t s).1.alloc.sum + (Sizes.readSizes t s).1.limit = s.alloc.sum + s.limit :=
+  Sizes.readSizes_conserve t s
+
 /-- the allocation counter saturates instead of wrapping. -/
 theorem alloc_counter_saturates (a : Alloc.Checker) (size : Nat) (ha : a.allocatedSize ≤ Alloc.maxUint) :
     a.allocatedSize ≤ (a.addAllocSize size).allocatedSize ∧
@@ -49,6 +64,11 @@ theorem limits_are_from_source : Gen.multimapElemCountLimit = 1024 ∧ Gen.frame
     Gen.recordAllocLimit = 33554432 ∧ Gen.varHdrContentSizeLimit = 1048576 := by decide
 
 -- non-vacuity
+-- three columns each claiming 3 bytes of a budget of 8 (size table 0x77 0x70): each claim fits
+-- alone, the third is refused, and what was allocated before the refusal is 2 + 3 + 3 <= 10
+example : (Sizes.readFrom (.node [.node [], .node []]) [0x02#8, 0x77#8, 0x70#8] 10).outcome = .errColLimit ∧
+    (Sizes.readFrom (.node [.node [], .node []]) [0x02#8, 0x77#8, 0x70#8] 10).alloc = [3, 3] := by
+  with_unfolding_all decide
 example : (Alloc.grant {} [.one 100, .many 8 1000]).2 = false := by decide
 example : (Alloc.grant {} [.one 100, .many (2 ^ 40) (2 ^ 40)]).2 = true := by decide
 
